@@ -436,6 +436,17 @@ func (x *exec) do(t, i int, cl call) {
 		err = x.rt.Flush()
 	case "dflush":
 		err = x.d.Flush()
+	case "dgetnode":
+		_, err = x.d.GetNode()
+	case "dlist":
+		var nls []mfs.NodeListing
+		nls, err = x.d.List(x.ctx)
+		var names []string
+		for _, nl := range nls {
+			names = append(names, fmt.Sprintf("%s/%d", nl.Name, nl.Size))
+		}
+		sort.Strings(names)
+		r.res = strings.Join(names, ",")
 	case "fflush":
 		err = x.fi.Flush()
 	case "fsync":
@@ -746,14 +757,6 @@ func (x *exec) Classify(res *vsched.Result, v *eng.Violation) {
 	v.Features["rlock_waiters"] = strings.Join(rl, ",")
 	v.Features["wlock_waiters"] = strings.Join(wl, ",")
 	v.Features["other_waiters"] = strings.Join(other, ",")
-	// File.Mode / File.ModTime are the only calls that take the same read lock twice (RLock, then GetNode -> RLock)
-	var re []string
-	for _, o := range rl {
-		if o == "mode" || o == "modtime" {
-			re = append(re, o)
-		}
-	}
-	v.Features["reentrant_reader_blocked"] = strings.Join(re, ",")
 	v.Detail += "\n" + x.logString()
 }
 
@@ -796,6 +799,15 @@ func scripts() []*script {
 		{name: "s5-pwrite-mv", threads: [][]call{{wp("write", -1)}, {c("mv")}}},
 		// S6: path-based metadata calls
 		{name: "s6-chmod-touch-lookup", threads: [][]call{{cm("chmod", 0o644)}, {ct("touch", 0)}, {c("lookup")}}},
+		// S9: metadata update of the (cached) file || listing / node / flush of its parent directory (file node lock vs directory lock)
+		{name: "s9-chmod-names", small: true, threads: [][]call{{cm("chmod", 0o644)}, {c("names")}}},
+		{name: "s9-chmod-foreachentry", small: true, threads: [][]call{{cm("chmod", 0o644)}, {c("list")}}},
+		{name: "s9-touch-dlist", small: true, threads: [][]call{{ct("touch", 1)}, {c("dlist")}}},
+		{name: "s9-setmode-dgetnode", small: true, threads: [][]call{{cm("setmode", 0o644)}, {c("dgetnode")}}},
+		{name: "s9-setmtime-dflush", small: true, threads: [][]call{{ct("setmtime", 1)}, {c("dflush")}}},
+		{name: "s9-touch-flushpath-dir", small: true, threads: [][]call{{ct("touch", 0)}, {cp("flushpath", "/d")}}},
+		{name: "s9-setmode-rootflush", small: true, threads: [][]call{{cm("setmode", 0o644)}, {c("rootflush")}}},
+		{name: "s9-chmod-list-dflush", threads: [][]call{{cm("chmod", 0o644), ct("touch", 1)}, {c("list")}, {c("dflush")}}},
 		// S7: metadata update || data write on the same file (setNodeData builds the new node from a stale one)
 		{name: "s7-setmode-write", small: true, threads: [][]call{{cm("setmode", 0o644)}, {w("write", 0)}}},
 		{name: "s7-setmode-write-tree", small: true, tree: true, threads: [][]call{{cm("setmode", 0o644)}, {w("write", 0)}}},
